@@ -325,6 +325,89 @@ def register(OPS, drv):
             w.close()
         return {"root": w.root, "results": res}
 
+    def op_c03_logging(job):
+        """The REAL logger (pygopherd.logger.init on the world's configuration, nothing replaced) under each logging setup:
+        setups: [{name, logmethod: file|syslog|none, stream: {encoding, errors} | "nobuffer" | "closed" | None}]
+        For logmethod=file the process's sys.stdout is a text stream of the given charset over a scratch file, and what
+        reaches the file is read back after every request; for syslog the records are the strings handed to the real
+        syslog.syslog (called as well: it is the one that refuses what it cannot send).
+        -> {setup name: [per request {out, exc, secs, records: [latin-1 str]}]}"""
+        import os
+        import sys
+        import pygopherd.logger as plogger
+        w = drv.World(job)
+        out = {}
+        saved_stdout, saved_log = sys.stdout, plogger.log
+        try:
+            for st in job["setups"]:
+                w.config.set("logger", "logmethod", st["logmethod"])
+                path = os.path.join(w.tmp, "stdout-%s.log" % st["name"])
+                captured = []
+                stream = None
+                spec = st.get("stream")
+                if st["logmethod"] == "file":
+                    if spec == "nobuffer":
+                        import io as _io
+
+                        class Tee(_io.StringIO):       # what a service wrapper installs: a text stream without .buffer
+                            pass
+                        stream = Tee()
+                    else:
+                        raw = open(path, "wb")
+                        enc = spec if isinstance(spec, dict) else {"encoding": "utf-8", "errors": "strict"}
+                        stream = io.TextIOWrapper(raw, encoding=enc["encoding"], errors=enc["errors"], line_buffering=True)
+                        if spec == "closed":
+                            stream.close()
+                    sys.stdout = stream
+                try:
+                    plogger.init(w.config)
+                    if st["logmethod"] == "syslog":
+                        real = plogger.syslogfunc
+
+                        def sysl(prio, msg, real=real):
+                            real(prio, msg)
+                            captured.append(msg)
+                        plogger.syslogfunc = sysl
+                    res = []
+                    pos = 0
+                    for rq in job["requests"]:
+                        del captured[:]
+                        r = drv.serve_once(w.config, drv.s2b(rq["data"]), tls=rq.get("tls", False))
+                        recs = []
+                        raw_new = None
+                        if st["logmethod"] == "syslog":
+                            recs = [m.encode("utf-8", "backslashreplace").decode("latin-1") for m in captured]
+                        elif st["logmethod"] == "file" and spec == "nobuffer":
+                            v = stream.getvalue()
+                            recs = [x.encode("utf-8", "backslashreplace").decode("latin-1") for x in v[pos:].split("\n") if x]
+                            pos = len(v)
+                        elif st["logmethod"] == "file" and spec != "closed":
+                            try:
+                                stream.flush()
+                            except Exception:
+                                pass
+                            with open(path, "rb") as f:
+                                f.seek(pos)
+                                new = f.read()
+                            pos += len(new)
+                            raw_new = new.decode("latin-1")
+                            recs = [x.decode("latin-1") for x in new.split(b"\n") if x]
+                        res.append({"out": r["out"], "exc": r["exc"], "secs": r["secs"], "records": recs, "raw": raw_new})
+                    out[st["name"]] = res
+                finally:
+                    sys.stdout = saved_stdout
+                    if stream is not None:
+                        try:
+                            stream.close()
+                        except Exception:
+                            pass
+            return {"results": out}
+        finally:
+            sys.stdout = saved_stdout
+            plogger.log = saved_log
+            w.close()
+
+    OPS["c03_logging"] = op_c03_logging
     OPS["c03_live"] = op_c03_live
     OPS["k03_calls"] = op_k03_calls
     OPS["k03_handle"] = op_k03_handle
